@@ -147,6 +147,24 @@ class Box:
     def fail(self, n, kind=0):
         raise ERRS[kind]('box', n)
 
+    # the documented helpers: every one of them must hand out a LIVE proxy of the object the method holds on to
+    def make_with(self, n, helper):
+        inner = [n]
+        self.items.append(inner)
+        if helper == 0:
+            return SP.managed(inner)
+        if helper == 1:
+            return SP.managed_list(inner)
+        return SP.managed(inner, typeid='ManagedList')
+
+    def make_dict(self, n):
+        d = {'k': n}
+        self.items.append(d)
+        return SP.managed_dict(d)
+
+    def peek_dict(self, j):
+        return dict(self.items[j])
+
 
 SP.ServerProcess.register('VerifBox', Box)
 
@@ -160,6 +178,32 @@ def check_managed_returns_live_proxy(n: int, m: int, first: int, kind: int = 0) 
     n, m, first, kind = conc(n, 0, 2), conc(m, 0, 2), conc(first, 0, 1), conc(kind, 0, 4)
     with _untraced():   # proxy classes are built with exec() of generated source: keep CrossHair's string models out
         return _managed_body(n, m, first, kind)
+
+
+def check_managed_helpers_return_live_proxies(n: int, m: int, helper: int) -> bool:
+    """
+    pre: 0 <= n <= 2 and 0 <= m <= 2 and 0 <= helper <= 3
+    twin-pre: helper == 1
+    post: _
+    """
+    n, m, helper = conc(n, 0, 2), conc(m, 0, 2), conc(helper, 0, 3)
+    with _untraced():
+        T.install()
+        box = T.create('VerifBox')
+        if helper == 3:
+            d = box.make_dict(n)
+            if d.copy() != {'k': n}:
+                return False
+            d['k2'] = m                                      # mutation through the returned proxy ...
+            if box.peek_dict(0) != {'k': n, 'k2': m}:        # ... is visible on the hosted value
+                return False
+            d2 = box.make_dict(m)
+            return d2['k'] == m and d['k'] == n
+        inner = box.make_with(n, helper)
+        if list(inner) != [n]:
+            return False
+        inner.append(m)
+        return box.peek(0) == [n, m] and list(inner) == [n, m]
 
 
 def _untraced():
@@ -220,6 +264,7 @@ def _warm():
     """Create every proxy type once, concretely, at import time: their classes are built with exec() of generated source,
     which must not happen on symbolic values."""
     for f, a in ((check_managed_returns_live_proxy, (1, 2, 1)), (check_value_namespace, (1, 2)),
+                 (check_managed_helpers_return_live_proxies, (1, 2, 1)), (check_managed_helpers_return_live_proxies, (1, 2, 3)),
                  (run_list, ([0, 2], [0, 0], [1, 1])), (run_dict, ([0, 2], [1, 1], [1, 1]))):
         try:
             f(*a)
